@@ -293,7 +293,12 @@ def run(ctx):
     # depth-2 bodies on a reduced interval
     from . import _e1common as X
     d2vals = list(range(-3, 4))
-    for prog in X.depth2_family(ctx):
+    d2 = X.depth2_family(ctx)
+    if not ctx.thorough:
+        # quick: every operator as inner operation, consumed by mul / eq / truediv (the consumers whose
+        # hints depend on the inner value); the full family runs in the thorough tier
+        d2 = [pr for pr in d2 if pr["expr"][1] in ("mul", "eq", "truediv", "sub", "le", "mod")]
+    for prog in d2:
         tasks.append((prog, 2, REC.BN128, d2vals, False))
     random.Random(ctx.seed).shuffle(tasks)
     tasks.sort(key=lambda t: -len(t[0]["kinds"]) - (2 if t[4] else 0))
